@@ -115,6 +115,15 @@ class Ctx:
         }
         os.makedirs(EVID, exist_ok=True)
         json.dump(ev, open(os.path.join(EVID, self.pid + ".json"), "w"), indent=1)
+        # the emitted behaviours of a thorough run are gigabytes; when nothing was found they are of no further use
+        if not self.violations and not self.known_hits:
+            try:
+                for f in os.listdir(self.out):
+                    fp = os.path.join(self.out, f)
+                    if f.endswith(".ndjson") and os.path.isfile(fp) and os.path.getsize(fp) > 64 * 1024 * 1024:
+                        os.remove(fp)
+            except OSError:
+                pass
         for sig, what in self.known_hits:
             print("KNOWN-FINDING: property=%s %s (%s)" % (self.pid, sig, what))
         for text in self.beyond[:5]:
